@@ -116,7 +116,20 @@ def same_final(a, b, ids):
     cb = {p: norm_manifest(o) for p, o in classified(visible(b), ids).items()}
     return ca == cb, [p for p in set(ca) | set(cb) if ca.get(p) != cb.get(p)]
 
-def run_scenario(ctx, idx, kinds, max_points, cases):
+def directed_legacy_unused(cw, sb, rng):
+    """regression for K7d: every root only keeps a legacy-named manifest, and the next deploy removes
+    the last managed files of some roots (their modules are switched off)"""
+    for r in cw.roots(None):
+        pref = r['root'] + '/' + ds.mf_name(r['target']); leg = r['root'] + '/' + ds.LEGACY
+        if os.path.exists(pref) and not os.path.exists(leg):
+            os.rename(pref, leg)
+    kinds = sorted({m['type'] for m in cw.modules})
+    off = set(rng.sample(kinds, rng.randrange(1, len(kinds) + 1))) if kinds else set()
+    for m in cw.modules:
+        if m['type'] in off: m['enabled'] = False
+    return ['directed:legacy_unused']
+
+def run_scenario(ctx, idx, kinds, max_points, cases, directed=None):
     rng = ctx.rng
     sb = Sandbox('c07'); sb.git_init_project()
     try:
@@ -127,12 +140,16 @@ def run_scenario(ctx, idx, kinds, max_points, cases):
         base = sb.root
         sb.cli_json(['deploy', '--apply', '--yes', '--adopt'])
         tags = []
-        for _ in range(rng.randrange(1, 4)):
-            tags.append('cfg:' + cw.edit_config())
-        cw.write()
-        for _ in range(rng.randrange(0, 3)):
-            t = ds.user_edit(rng, cw)
-            if not t.startswith('manifest:'): tags.append('user:' + t)
+        if directed is not None:
+            tags += directed(cw, sb, rng)
+            cw.write()
+        else:
+            for _ in range(rng.randrange(1, 4)):
+                tags.append('cfg:' + cw.edit_config())
+            cw.write()
+            for _ in range(rng.randrange(0, 3)):
+                t = ds.user_edit(rng, cw)
+                if not t.startswith('manifest:'): tags.append('user:' + t)
         flt = None
         saved = save_world(sb)
         before = ds.world_tree(sb)
@@ -358,6 +375,8 @@ def run(ctx):
     kinds = ['abort', 'EACCES'] if quick else ['abort', 'EACCES', 'ENOSPC', 'EIO']
     for i in range(5 if quick else 60):
         run_scenario(ctx, i, kinds, 14 if quick else None, cases)
+    for i in range(2 if quick else 6):
+        run_scenario(ctx, 1000 + i, kinds, 14 if quick else None, cases, directed=directed_legacy_unused)
     for c in ctx.corr('crash', HEADER, 'check_crash', 'crash_case', cases, shard_chars=40000):
         ctx.violation('model and implementation disagree on the sequence of mutating operations / a crash-prefix disk', c, no_input=True)
     rcases = []
